@@ -130,6 +130,9 @@ mutual
     | repeatS (kRep : Item) (body : Stl) (kUntil : Item) (c : S) (kEnd : Item)
     /-- `FOR ctl := frm TO to [BY step] DO body END_FOR` -/
     | forS (kFor ctl asg : Item) (frm : S) (kTo : Item) (to : S) (step : Option (Item × S)) (kDo : Item) (body : Stl) (kEnd : Item)
+    /-- `CASE sel OF groups [ELSE els] END_CASE` -/
+    | caseS (kCase kOf : Item) (sel : S) (groups : Groups) (kEnd : Item)
+    | caseElse (kCase kOf : Item) (sel : S) (groups : Groups) (kElse : Item) (els : Stl) (kEnd : Item)
     | exitS (k : Item)
     | returnS (k : Item)
   /-- statements, each followed by its semicolon -/
@@ -140,7 +143,18 @@ mutual
   inductive Elifs where
     | nil
     | cons (kElsif kThen : Item) (c : S) (body : Stl) (rest : Elifs)
+  /-- `d {, d} : body` groups of a CASE; the selectors are unsigned integer literals (`v` their values) -/
+  inductive Groups where
+    | nil
+    | cons (d : Item) (v : Nat) (more : List (Item × Item × Nat)) (colon : Item) (body : Stl) (rest : Groups)
 end
+
+/-- the tokens `, d` of the further selectors of a group -/
+def selToks (more : List (Item × Item × Nat)) : List Item := more.flatMap fun m => [m.1, m.2.1]
+/-- the tree of an unsigned integer selector -/
+def selSx (v : Nat) : Sx := .t "SignedInteger" [sxSigned v false]
+def groupSx (v : Nat) (more : List (Item × Item × Nat)) (body : List Sx) : Sx :=
+  .n "CaseStatementGroup" [("selectors", .l (selSx v :: more.map fun m => selSx m.2.2)), ("statements", .l body)]
 
 mutual
   def St.toks : St → List Item
@@ -153,6 +167,8 @@ mutual
         kFor :: ctl :: asg :: (frm.toks ++ kTo :: (to.toks ++ kDo :: (body.toks ++ [kEnd])))
     | .forS kFor ctl asg frm kTo to (some (kBy, st)) kDo body kEnd =>
         kFor :: ctl :: asg :: (frm.toks ++ kTo :: (to.toks ++ kBy :: (st.toks ++ kDo :: (body.toks ++ [kEnd]))))
+    | .caseS kCase kOf sel groups kEnd => kCase :: (sel.toks ++ kOf :: (groups.toks ++ [kEnd]))
+    | .caseElse kCase kOf sel groups kElse els kEnd => kCase :: (sel.toks ++ kOf :: (groups.toks ++ kElse :: (els.toks ++ [kEnd])))
     | .exitS k => [k]
     | .returnS k => [k]
   def Stl.toks : Stl → List Item
@@ -161,6 +177,9 @@ mutual
   def Elifs.toks : Elifs → List Item
     | .nil => []
     | .cons kE kT c body rest => kE :: (c.toks ++ kT :: (body.toks ++ rest.toks))
+  def Groups.toks : Groups → List Item
+    | .nil => []
+    | .cons d _ more colon body rest => d :: (selToks more ++ colon :: (body.toks ++ rest.toks))
 end
 
 mutual
@@ -176,6 +195,10 @@ mutual
     | .forS _ ctl _ frm _ to step _ body _ =>
         .t "For" [.n "For" [("control", .a (txt ctl)), ("from", frm.sx), ("to", to.sx),
                             ("step", Sx.opt (step.map fun p => p.2.sx)), ("body", .l body.sxs)]]
+    | .caseS _ _ sel groups _ =>
+        .t "Case" [.n "Case" [("selector", sel.sx), ("statement_groups", .l groups.sxs), ("else_body", .l [])]]
+    | .caseElse _ _ sel groups _ els _ =>
+        .t "Case" [.n "Case" [("selector", sel.sx), ("statement_groups", .l groups.sxs), ("else_body", .l els.sxs)]]
     | .exitS _ => .a "Exit"
     | .returnS _ => .a "Return"
   def Stl.sxs : Stl → List Sx
@@ -184,6 +207,9 @@ mutual
   def Elifs.sxs : Elifs → List Sx
     | .nil => []
     | .cons _ _ c body rest => .n "ElseIf" [("expr", c.sx), ("body", .l body.sxs)] :: rest.sxs
+  def Groups.sxs : Groups → List Sx
+    | .nil => []
+    | .cons _ v more _ body rest => groupSx v more body.sxs :: rest.sxs
 end
 
 def Stl.isNil : Stl → Bool
@@ -202,6 +228,9 @@ mutual
         kFor.ty = "For" ∧ ctl.ty = "Identifier" ∧ asg.ty = "Assignment" ∧ kTo.ty = "To" ∧ kDo.ty = "Do" ∧ kEnd.ty = "EndFor" ∧
         frm.WF 0 ∧ to.WF 0 ∧ body.WF ∧ body.isNil = false ∧
         (match step with | none => True | some (kBy, st) => kBy.ty = "By" ∧ st.WF 0)
+    | .caseS kCase kOf sel groups kEnd => kCase.ty = "Case" ∧ kOf.ty = "Of" ∧ kEnd.ty = "EndCase" ∧ sel.WF 0 ∧ groups.WF
+    | .caseElse kCase kOf sel groups kElse els kEnd =>
+        kCase.ty = "Case" ∧ kOf.ty = "Of" ∧ kElse.ty = "Else" ∧ kEnd.ty = "EndCase" ∧ sel.WF 0 ∧ groups.WF ∧ els.WF ∧ els.isNil = false
     | .exitS k => k.ty = "Exit"
     | .returnS k => k.ty = "Return"
   def Stl.WF : Stl → Prop
@@ -210,6 +239,12 @@ mutual
   def Elifs.WF : Elifs → Prop
     | .nil => True
     | .cons kE kT c body rest => kE.ty = "Elsif" ∧ kT.ty = "Then" ∧ c.WF 0 ∧ body.WF ∧ body.isNil = false ∧ rest.WF
+  def Groups.WF : Groups → Prop
+    | .nil => True
+    | .cons d v more colon body rest =>
+        d.ty = "Digits" ∧ integerNew d.text = some v ∧
+        (∀ m ∈ more, m.1.ty = "Comma" ∧ m.2.1.ty = "Digits" ∧ integerNew m.2.1.text = some m.2.2) ∧
+        colon.ty = "Colon" ∧ body.WF ∧ body.isNil = false ∧ rest.WF
 end
 
 mutual
@@ -221,6 +256,8 @@ mutual
     | .whileS _ _ c body _ => c.need + body.need + 8
     | .repeatS _ body _ c _ => c.need + body.need + 8
     | .forS _ _ _ frm _ to step _ body _ => frm.need + to.need + (match step with | none => 0 | some (_, st) => st.need) + body.need + 8
+    | .caseS _ _ sel groups _ => sel.need + groups.need + 8
+    | .caseElse _ _ sel groups _ els _ => sel.need + groups.need + els.need + 8
     | .exitS _ => 1
     | .returnS _ => 1
   def Stl.need : Stl → Nat
@@ -229,6 +266,9 @@ mutual
   def Elifs.need : Elifs → Nat
     | .nil => 0
     | .cons _ _ c body rest => c.need + body.need + rest.need + 4
+  def Groups.need : Groups → Nat
+    | .nil => 0
+    | .cons _ _ _ _ body rest => body.need + rest.need
 end
 
 /-! ### keywords that end a statement list, and what follows an expression inside a statement -/
@@ -236,7 +276,7 @@ end
 def isCloser (ty : String) : Bool :=
   ty == "EndIf" || ty == "Else" || ty == "Elsif" || ty == "EndWhile" || ty == "Until" || ty == "EndRepeat" ||
   ty == "EndProgram" || ty == "EndFunctionBlock" || ty == "EndFunction" || ty == "EndFor" || ty == "EndCase" ||
-  ty == "EndAction" || ty == "EndTransition"
+  ty == "EndAction" || ty == "EndTransition" || ty == "Digits"
 
 theorem ends_kw (t : Item) (ts : List Item)
     (h : t.ty = "Then" ∨ t.ty = "Do" ∨ t.ty = "EndRepeat" ∨ t.ty = "Semicolon") :
@@ -414,7 +454,7 @@ theorem chainOf_nonempty : (l : Stl) → ∀ prev, ∀ x ∈ chainOf prev l, x.2
 
 /-- a statement starts with a name or a statement keyword -/
 def isStart (ty : String) : Bool :=
-  ty == "Identifier" || ty == "If" || ty == "While" || ty == "Repeat" || ty == "For" || ty == "Exit" || ty == "Return"
+  ty == "Identifier" || ty == "If" || ty == "While" || ty == "Repeat" || ty == "For" || ty == "Case" || ty == "Exit" || ty == "Return"
 
 theorem St.head (s : St) (h : s.WF) : ∃ t ts, s.toks = t :: ts ∧ isStart t.ty = true := by
   cases s with
@@ -427,6 +467,8 @@ theorem St.head (s : St) (h : s.WF) : ∃ t ts, s.toks = t :: ts ∧ isStart t.t
     cases step with
     | none => exact ⟨kFor, _, rfl, by rw [h.1]; decide⟩
     | some p => obtain ⟨kBy, st⟩ := p; exact ⟨kFor, _, rfl, by rw [h.1]; decide⟩
+  | caseS kCase kOf sel groups kEnd => exact ⟨kCase, _, rfl, by rw [h.1]; decide⟩
+  | caseElse kCase kOf sel groups kElse els kEnd => exact ⟨kCase, _, rfl, by rw [h.1]; decide⟩
   | exitS k => exact ⟨k, _, rfl, by rw [show k.ty = "Exit" from h]; decide⟩
   | returnS k => exact ⟨k, _, rfl, by rw [show k.ty = "Return" from h]; decide⟩
 
@@ -612,6 +654,156 @@ theorem ifElse_reads (g : Nat) (kIf kThen kElse kEnd : Item) (ctoks btoks T etok
     bind_some _ _ _ _ _ hwsE, bind_some _ _ _ _ _ (tok_hit _ _ _ hEnd)]
   rfl
 
+/-! ### CASE -/
+
+theorem ends_of (t : Item) (ts : List Item) (h : t.ty = "Of") :
+    ∀ u us, t :: ts = u :: us → okNext u.ty = true ∧ ∀ row ∈ Gen.prec, u.ty ≠ row.token := by
+  intro u us hu
+  cases hu
+  rw [h]; exact ⟨by decide, by decide⟩
+
+/-- an unsigned integer in front of `,` or `:` is a selector: not a subrange, a signed integer -/
+theorem caseListElement_digits (d n : Item) (R : List Item) (v : Nat) (hd : d.ty = "Digits") (hv : integerNew d.text = some v)
+    (hn : n.ty = "Comma" ∨ n.ty = "Colon") : caseListElement (d :: n :: R) = some (selSx v, n :: R) := by
+  rcases hn with hn | hn <;>
+  simp [caseListElement, subrange, signedInteger, integer, selSx, ws, List.dropWhile,
+    bind_run, orElse_run, opt_run, tok_cons, hd, hn, map_run, hv, pure_run]
+
+theorem caseListElement_none (K : Item) (R : List Item) (hK : K.ty = "Else" ∨ K.ty = "EndCase") :
+    caseListElement (K :: R) = none := by
+  rcases hK with hK | hK <;>
+  simp [caseListElement, subrange, signedInteger, integer, enumeratedValue, typeName, identifier,
+    bind_run, orElse_run, opt_run, tok_cons, hK, map_run, pure_run]
+
+/-- one group `d {, d} : body` of a CASE, as written inside `caseStatement` -/
+def caseGroupP (g : Nat) : P Sx := do
+  let sels ← sepBy1 caseListElement (do ws; comma; ws)
+  ws; let _ ← tok "Colon"; ws
+  let b ← statementList g
+  pure (Sx.n "CaseStatementGroup" [("selectors", .l sels), ("statements", .l b)])
+
+def selSegs (more : List (Item × Item × Nat)) : List (Sx × List Item) := more.map fun m => (selSx m.2.2, [m.1, m.2.1])
+
+theorem flat_selSegs (more : List (Item × Item × Nat)) : flat (selSegs more) = selToks more := by
+  simp [flat, selSegs, selToks, List.flatMap_map]
+
+theorem map_selSegs (more : List (Item × Item × Nat)) : (selSegs more).map (·.1) = more.map fun m => selSx m.2.2 := by
+  simp [selSegs]
+
+def MoreWF (more : List (Item × Item × Nat)) : Prop :=
+  ∀ m ∈ more, m.1.ty = "Comma" ∧ m.2.1.ty = "Digits" ∧ integerNew m.2.1.text = some m.2.2
+
+theorem sel_head (more : List (Item × Item × Nat)) (h : MoreWF more) (colon : Item) (R : List Item) (hc : colon.ty = "Colon") :
+    ∃ n R', (n.ty = "Comma" ∨ n.ty = "Colon") ∧ flat (selSegs more) ++ colon :: R = n :: R' := by
+  cases more with
+  | nil => exact ⟨colon, R, Or.inr hc, rfl⟩
+  | cons m more => exact ⟨m.1, m.2.1 :: (flat (selSegs more) ++ colon :: R), Or.inl (h m (List.mem_cons_self ..)).1, by simp [flat, selSegs]⟩
+
+theorem comma_hit (t : Item) (ts : List Item) (h : t.ty = "Comma") : comma (t :: ts) = some ((), ts) := by
+  rw [comma, bind_some _ _ _ _ _ (tok_hit _ _ _ h)]; rfl
+theorem comma_miss (t : Item) (ts : List Item) (h : t.ty ≠ "Comma") : comma (t :: ts) = none := by
+  rw [comma]; exact bind_none _ _ _ (tok_miss _ _ _ h)
+
+theorem sel_chain : ∀ (more : List (Item × Item × Nat)), MoreWF more → ∀ (colon : Item) (R : List Item), colon.ty = "Colon" →
+    Chain (do let _ ← (do ws; comma; ws : P Unit); caseListElement : P Sx) (selSegs more) (colon :: R) := by
+  intro more
+  induction more with
+  | nil =>
+    intro _ colon R hc
+    show (do let _ ← (do ws; comma; ws : P Unit); caseListElement : P Sx) (colon :: R) = none
+    apply bind_none
+    rw [bind_some _ _ _ _ _ (ws_cons colon _ (by rw [hc]; decide))]
+    exact bind_none _ _ _ (comma_miss _ _ (by rw [hc]; decide))
+  | cons m more ih =>
+    intro h colon R hc
+    obtain ⟨hcm, hd, hv⟩ := h m (List.mem_cons_self ..)
+    have hmore : MoreWF more := fun x hx => h x (List.mem_cons_of_mem _ hx)
+    refine ⟨by simp, ?_, ih hmore colon R hc⟩
+    obtain ⟨n, R', hn, heq⟩ := sel_head more hmore colon R hc
+    show (do let _ ← (do ws; comma; ws : P Unit); caseListElement : P Sx) ([m.1, m.2.1] ++ (flat (selSegs more) ++ colon :: R))
+      = some (selSx m.2.2, flat (selSegs more) ++ colon :: R)
+    rw [heq]
+    have hsep : (do ws; comma; ws : P Unit) ([m.1, m.2.1] ++ n :: R') = some ((), m.2.1 :: n :: R') := by
+      show (do ws; comma; ws : P Unit) (m.1 :: m.2.1 :: n :: R') = _
+      rw [bind_some _ _ _ _ _ (ws_cons m.1 _ (by rw [hcm]; decide)), bind_some _ _ _ _ _ (comma_hit _ _ hcm)]
+      exact ws_cons _ _ (by rw [hd]; decide)
+    rw [bind_some _ _ _ _ _ hsep]
+    exact caseListElement_digits _ _ _ _ hd hv hn
+
+/-- the selectors of a group -/
+theorem selectors_read (d : Item) (v : Nat) (more : List (Item × Item × Nat)) (colon : Item) (R : List Item)
+    (hd : d.ty = "Digits") (hv : integerNew d.text = some v) (hm : MoreWF more) (hc : colon.ty = "Colon") :
+    sepBy1 caseListElement (do ws; comma; ws : P Unit) (d :: (selToks more ++ colon :: R)) =
+      some (selSx v :: more.map (fun m => selSx m.2.2), colon :: R) := by
+  unfold sepBy1
+  obtain ⟨n, R', hn, heq⟩ := sel_head more hm colon R hc
+  have hfirst : caseListElement (d :: (flat (selSegs more) ++ colon :: R)) = some (selSx v, flat (selSegs more) ++ colon :: R) := by
+    rw [heq]; exact caseListElement_digits _ _ _ _ hd hv hn
+  have hmany := many_chain _ (selSegs more) (colon :: R) (sel_chain more hm colon R hc)
+    (by intro x hx; simp only [selSegs, List.mem_map] at hx; obtain ⟨m, _, rfl⟩ := hx; simp)
+  rw [← flat_selSegs, bind_some _ _ _ _ _ hfirst, bind_some _ _ _ _ _ hmany, map_selSegs]
+  rfl
+
+theorem caseGroupP_reads (g : Nat) (d : Item) (v : Nat) (more : List (Item × Item × Nat)) (colon : Item) (btoks T : List Item)
+    (b : List Sx) (hd : d.ty = "Digits") (hv : integerNew d.text = some v) (hm : MoreWF more) (hc : colon.ty = "Colon")
+    (hwsb : ws (btoks ++ T) = some ((), btoks ++ T))
+    (hb : statementList g (btoks ++ T) = some (b, T)) :
+    caseGroupP g (d :: (selToks more ++ colon :: (btoks ++ T))) = some (groupSx v more b, T) := by
+  unfold caseGroupP
+  rw [bind_some _ _ _ _ _ (selectors_read d v more colon (btoks ++ T) hd hv hm hc),
+    bind_some _ _ _ _ _ (ws_cons colon _ (by rw [hc]; decide)), bind_some _ _ _ _ _ (tok_hit _ _ _ hc),
+    bind_some _ _ _ _ _ hwsb, bind_some _ _ _ _ _ hb]
+  rfl
+
+theorem caseGroupP_none (g : Nat) (K : Item) (R : List Item) (hK : K.ty = "Else" ∨ K.ty = "EndCase") :
+    caseGroupP g (K :: R) = none := by
+  unfold caseGroupP sepBy1
+  exact bind_none _ _ _ (bind_none _ _ _ (caseListElement_none K R hK))
+
+/-- `CASE sel OF groups END_CASE`; `T` is what follows OF -/
+theorem caseStatement_reads (g : Nat) (kCase kOf kEnd : Item) (stoks T rest : List Item) (sel : Sx) (gs : List Sx)
+    (hCase : kCase.ty = "Case") (hOf : kOf.ty = "Of") (hEnd : kEnd.ty = "EndCase")
+    (hwss : ws (stoks ++ kOf :: T) = some ((), stoks ++ kOf :: T))
+    (hs : expression g (stoks ++ kOf :: T) = some (sel, kOf :: T))
+    (hwsT : ws T = some ((), T))
+    (hx : sepBy (caseGroupP g) ws T = some (gs, kEnd :: rest)) :
+    caseStatement (g + 1) (kCase :: (stoks ++ kOf :: T)) =
+      some (.t "Case" [.n "Case" [("selector", sel), ("statement_groups", .l gs), ("else_body", .l [])]], rest) := by
+  rw [caseStatement]
+  have hwsE : ws (kEnd :: rest) = some ((), kEnd :: rest) := ws_cons _ _ (by rw [hEnd]; decide)
+  unfold caseGroupP at hx
+  rw [bind_some _ _ _ _ _ (tok_hit _ _ _ hCase), bind_some _ _ _ _ _ hwss, bind_some _ _ _ _ _ hs,
+    bind_some _ _ _ _ _ (ws_cons kOf _ (by rw [hOf]; decide)), bind_some _ _ _ _ _ (tok_hit _ _ _ hOf),
+    bind_some _ _ _ _ _ hwsT, bind_some _ _ _ _ _ hx, bind_some _ _ _ _ _ hwsE,
+    bind_some _ _ _ _ _ (opt_none _ _ (bind_none _ _ _ (tok_miss _ _ _ (by rw [hEnd]; decide)))),
+    bind_some _ _ _ _ _ hwsE, bind_some _ _ _ _ _ (tok_hit _ _ _ hEnd)]
+  rfl
+
+/-- `CASE sel OF groups ELSE els END_CASE` -/
+theorem caseElse_reads (g : Nat) (kCase kOf kElse kEnd : Item) (stoks T etoks rest : List Item) (sel : Sx) (gs els : List Sx)
+    (hCase : kCase.ty = "Case") (hOf : kOf.ty = "Of") (hElse : kElse.ty = "Else") (hEnd : kEnd.ty = "EndCase")
+    (hwss : ws (stoks ++ kOf :: T) = some ((), stoks ++ kOf :: T))
+    (hs : expression g (stoks ++ kOf :: T) = some (sel, kOf :: T))
+    (hwsT : ws T = some ((), T))
+    (hx : sepBy (caseGroupP g) ws T = some (gs, kElse :: (etoks ++ kEnd :: rest)))
+    (hwse : ws (etoks ++ kEnd :: rest) = some ((), etoks ++ kEnd :: rest))
+    (he : statementList g (etoks ++ kEnd :: rest) = some (els, kEnd :: rest)) :
+    caseStatement (g + 1) (kCase :: (stoks ++ kOf :: T)) =
+      some (.t "Case" [.n "Case" [("selector", sel), ("statement_groups", .l gs), ("else_body", .l els)]], rest) := by
+  rw [caseStatement]
+  have hwsE : ws (kEnd :: rest) = some ((), kEnd :: rest) := ws_cons _ _ (by rw [hEnd]; decide)
+  have hwsL : ws (kElse :: (etoks ++ kEnd :: rest)) = some ((), kElse :: (etoks ++ kEnd :: rest)) := ws_cons _ _ (by rw [hElse]; decide)
+  have helse : (do let _ ← tok "Else"; ws; statementList g : P (List Sx)) (kElse :: (etoks ++ kEnd :: rest)) = some (els, kEnd :: rest) := by
+    rw [bind_some _ _ _ _ _ (tok_hit _ _ _ hElse), bind_some _ _ _ _ _ hwse]
+    exact he
+  unfold caseGroupP at hx
+  rw [bind_some _ _ _ _ _ (tok_hit _ _ _ hCase), bind_some _ _ _ _ _ hwss, bind_some _ _ _ _ _ hs,
+    bind_some _ _ _ _ _ (ws_cons kOf _ (by rw [hOf]; decide)), bind_some _ _ _ _ _ (tok_hit _ _ _ hOf),
+    bind_some _ _ _ _ _ hwsT, bind_some _ _ _ _ _ hx, bind_some _ _ _ _ _ hwsL,
+    bind_some _ _ _ _ _ (opt_some _ _ _ _ helse),
+    bind_some _ _ _ _ _ hwsE, bind_some _ _ _ _ _ (tok_hit _ _ _ hEnd)]
+  rfl
+
 /-- `WHILE c DO body END_WHILE` -/
 theorem whileStatement_reads (g : Nat) (kW kDo kEnd : Item) (ctoks btoks rest : List Item) (c : Sx) (body : List Sx)
     (hW : kW.ty = "While") (hDo : kDo.ty = "Do") (hEnd : kEnd.ty = "EndWhile")
@@ -772,6 +964,35 @@ theorem elifs_sepBy (e : Elifs) (g : Nat) (K : Item) (R : List Item)
   have := sepBy_chainW (elsifP g) (segsE e) (K :: R) h
   rwa [flat_segsE, map_segsE] at this
 
+/-- the groups of a CASE as segments of a `ChainW` -/
+def segsG : Groups → List (Sx × List Item)
+  | .nil => []
+  | .cons d v more colon body rest => (groupSx v more body.sxs, d :: (selToks more ++ colon :: body.toks)) :: segsG rest
+
+theorem flat_segsG : (e : Groups) → flat (segsG e) = e.toks
+  | .nil => rfl
+  | .cons d v more colon body rest => by
+    have := flat_segsG rest
+    simp only [flat] at this
+    simp only [segsG, flat, List.flatMap_cons, Groups.toks, this]
+    simp
+
+theorem map_segsG : (e : Groups) → (segsG e).map (·.1) = e.sxs
+  | .nil => rfl
+  | .cons d v more colon body rest => by simp only [segsG, List.map_cons, Groups.sxs, map_segsG rest]
+
+theorem groups_head (e : Groups) (he : e.WF) (K : Item) (R : List Item) (hK : isCloser K.ty = true) :
+    ∃ K' R', isCloser K'.ty = true ∧ e.toks ++ K :: R = K' :: R' := by
+  cases e with
+  | nil => exact ⟨K, R, hK, rfl⟩
+  | cons d v more colon body rest => exact ⟨d, _, by rw [he.1]; decide, rfl⟩
+
+theorem groups_sepBy (e : Groups) (g : Nat) (K : Item) (R : List Item)
+    (h : ChainW (caseGroupP g) (segsG e) (K :: R)) :
+    sepBy (caseGroupP g) ws (e.toks ++ K :: R) = some (e.sxs, K :: R) := by
+  have := sepBy_chainW (caseGroupP g) (segsG e) (K :: R) h
+  rwa [flat_segsG, map_segsG] at this
+
 mutual
   theorem st_reads : (s : St) → s.WF → ∀ (F : Nat) (semi : Item) (R : List Item), semi.ty = "Semicolon" → s.need ≤ F →
       statement F (s.toks ++ semi :: R) = some (s.sx, semi :: R)
@@ -834,6 +1055,51 @@ mutual
       rw [orElse_none _ _ _ (assignAlt_none _ kIf _ (by rw [hIf]; decide) (by rw [hIf]; decide))]
       apply orElse_some
       rw [hif, sxs_getD]
+      rfl
+    | .caseS kCase kOf sel groups kEnd, hwf, F, semi, R, hsemi, hF => by
+      obtain ⟨hCase, hOf, hEnd, hs, hg⟩ := hwf
+      simp only [St.need] at hF
+      obtain ⟨g, rfl⟩ : ∃ g, F = g + 4 := ⟨F - 4, by omega⟩
+      have hKend : isCloser kEnd.ty = true := by rw [hEnd]; decide
+      have hT := groups_head groups hg kEnd (semi :: R) hKend
+      have hexp := expression_reads sel (kOf :: (groups.toks ++ kEnd :: semi :: R)) (g + 2) hs
+        (ends_of kOf _ hOf) (by omega)
+      have hgroups := groups_sepBy groups (g + 2) kEnd (semi :: R)
+        (groups_chainW groups hg g kEnd (semi :: R) (Or.inr hEnd) (by omega))
+      have hcase := caseStatement_reads (g + 2) kCase kOf kEnd sel.toks (groups.toks ++ kEnd :: semi :: R) (semi :: R) sel.sx groups.sxs
+        hCase hOf hEnd (ws_toks sel 0 _ hs) hexp (ws_T _ hT) hgroups
+      have htoks : (St.caseS kCase kOf sel groups kEnd).toks ++ semi :: R
+          = kCase :: (sel.toks ++ kOf :: (groups.toks ++ kEnd :: semi :: R)) := by
+        simp [St.toks, List.append_assoc]
+      rw [htoks, statement]
+      rw [orElse_none _ _ _ (assignAlt_none _ kCase _ (by rw [hCase]; decide) (by rw [hCase]; decide))]
+      rw [orElse_none _ _ _ (ifStatement_none _ kCase _ (by rw [hCase]; decide))]
+      apply orElse_some
+      rw [hcase]
+      rfl
+    | .caseElse kCase kOf sel groups kElse els kEnd, hwf, F, semi, R, hsemi, hF => by
+      obtain ⟨hCase, hOf, hElse, hEnd, hs, hg, he, hene⟩ := hwf
+      simp only [St.need] at hF
+      obtain ⟨g, rfl⟩ : ∃ g, F = g + 4 := ⟨F - 4, by omega⟩
+      have hKend : isCloser kEnd.ty = true := by rw [hEnd]; decide
+      have hKelse : isCloser kElse.ty = true := by rw [hElse]; decide
+      have hT := groups_head groups hg kElse (els.toks ++ kEnd :: semi :: R) hKelse
+      have hexp := expression_reads sel (kOf :: (groups.toks ++ kElse :: (els.toks ++ kEnd :: semi :: R))) (g + 2) hs
+        (ends_of kOf _ hOf) (by omega)
+      have hgroups := groups_sepBy groups (g + 2) kElse (els.toks ++ kEnd :: semi :: R)
+        (groups_chainW groups hg g kElse _ (Or.inl hElse) (by omega))
+      have hels := stl_reads els he hene g kEnd (semi :: R) hKend (by omega)
+      have hcase := caseElse_reads (g + 2) kCase kOf kElse kEnd sel.toks (groups.toks ++ kElse :: (els.toks ++ kEnd :: semi :: R))
+        els.toks (semi :: R) sel.sx groups.sxs els.sxs
+        hCase hOf hElse hEnd (ws_toks sel 0 _ hs) hexp (ws_T _ hT) hgroups (ws_stl els he kEnd _ hKend) hels
+      have htoks : (St.caseElse kCase kOf sel groups kElse els kEnd).toks ++ semi :: R
+          = kCase :: (sel.toks ++ kOf :: (groups.toks ++ kElse :: (els.toks ++ kEnd :: semi :: R))) := by
+        simp [St.toks, List.append_assoc]
+      rw [htoks, statement]
+      rw [orElse_none _ _ _ (assignAlt_none _ kCase _ (by rw [hCase]; decide) (by rw [hCase]; decide))]
+      rw [orElse_none _ _ _ (ifStatement_none _ kCase _ (by rw [hCase]; decide))]
+      apply orElse_some
+      rw [hcase]
       rfl
     | .whileS kW kDo c body kEnd, hwf, F, semi, R, hsemi, hF => by
       obtain ⟨hW, hDo, hEnd, hc, hb, hbne⟩ := hwf
@@ -1014,6 +1280,27 @@ mutual
         have := elsifP_reads (g + 2) kE kT c.toks body.toks (rest.toks ++ K :: R) c.sx body.sxs hE hT
           (ws_toks c 0 _ hc) hexp (ws_stlT body hb _ hTl) hbody
         simpa [List.append_assoc] using this
+
+  theorem groups_chainW : (e : Groups) → e.WF → ∀ (g : Nat) (K : Item) (R : List Item),
+      (K.ty = "Else" ∨ K.ty = "EndCase") → e.need ≤ g → ChainW (caseGroupP (g + 2)) (segsG e) (K :: R)
+    | .nil, _, g, K, R, hK, _ =>
+      ⟨caseGroupP_none _ K R hK, ws_cons _ _ (by rcases hK with h | h <;> rw [h] <;> decide)⟩
+    | .cons d v more colon body rest, hwf, g, K, R, hK, hg => by
+      obtain ⟨hd, hv, hm, hc, hb, hbne, hrest⟩ := hwf
+      simp only [Groups.need] at hg
+      have hKc : isCloser K.ty = true := by rcases hK with h | h <;> rw [h] <;> decide
+      have hfl : flat (segsG rest) ++ K :: R = rest.toks ++ K :: R := by rw [flat_segsG]
+      have hTl := groups_head rest hrest K R hKc
+      refine ⟨by simp, ?_, ?_, groups_chainW rest hrest g K R hK (by omega)⟩
+      · exact ws_cons _ _ (by rw [hd]; decide)
+      · rw [hfl]
+        have hbody : statementList (g + 2) (body.toks ++ (rest.toks ++ K :: R)) = some (body.sxs, rest.toks ++ K :: R) := by
+          obtain ⟨K', R', hK', heq⟩ := hTl
+          rw [heq]
+          exact stl_reads body hb hbne g K' R' hK' (by omega)
+        have := caseGroupP_reads (g + 2) d v more colon body.toks (rest.toks ++ K :: R) body.sxs hd hv hm hc
+          (ws_stlT body hb _ hTl) hbody
+        simpa [List.append_assoc] using this
 end
 
 
@@ -1040,6 +1327,12 @@ mutual
     | .forS kFor ctl asg frm kTo to (some (kBy, st)) kDo body kEnd => by
       have := S.need_le frm; have := S.need_le to; have := S.need_le st; have := stl_need_le body
       simp only [St.need, St.toks, List.length_cons, List.length_append, List.length_nil]; omega
+    | .caseS kCase kOf sel groups kEnd => by
+      have := S.need_le sel; have := groups_need_le groups
+      simp only [St.need, St.toks, List.length_cons, List.length_append, List.length_nil]; omega
+    | .caseElse kCase kOf sel groups kElse els kEnd => by
+      have := S.need_le sel; have := groups_need_le groups; have := stl_need_le els
+      simp only [St.need, St.toks, List.length_cons, List.length_append, List.length_nil]; omega
     | .exitS k => by simp [St.need, St.toks]
     | .returnS k => by simp [St.need, St.toks]
   theorem stl_need_le : (l : Stl) → l.need ≤ 5 * l.toks.length
@@ -1052,6 +1345,11 @@ mutual
     | .cons kE kT c body rest => by
       have := S.need_le c; have := stl_need_le body; have := elifs_need_le rest
       simp only [Elifs.need, Elifs.toks, List.length_cons, List.length_append]; omega
+  theorem groups_need_le : (e : Groups) → e.need ≤ 5 * e.toks.length
+    | .nil => by simp [Groups.need, Groups.toks]
+    | .cons d v more colon body rest => by
+      have := stl_need_le body; have := groups_need_le rest
+      simp only [Groups.need, Groups.toks, List.length_cons, List.length_append]; omega
 end
 
 theorem need_le_toks : (∀ s : St, s.need ≤ 5 * s.toks.length) ∧ (∀ l : Stl, l.need ≤ 5 * l.toks.length) :=
